@@ -601,9 +601,18 @@ def client_test(ctx, rep):
         if d[1].endswith("::ne"):
             neg = not neg
         a, b = d[2]
+        if d[1].startswith("<num_bigint::Sign as std::cmp::PartialEq>::"):
+            # x.sign() == Sign::NoSign: num-bigint's own way of saying x == 0
+            a, b = strip(a), strip(b)
+            if util.is_call(b, "num_bigint::BigInt::sign"):
+                a, b = b, a
+            nosign = b[0] == "agg" and b[1] == "adt" and b[2] == "num_bigint::Sign" and b[3] == 1
+            if not (util.is_call(a, "num_bigint::BigInt::sign") and len(a[2]) == 1 and nosign):
+                continue
+            a, b = strip(a[2][0]), ("zero-by-sign",)
         if is_zero_const(a):
             a, b = b, a
-        if not is_zero_const(b):
+        if not is_zero_const(b) and b != ("zero-by-sign",):
             continue
         tt, ff = (f_t, t_t) if neg else (t_t, f_t)
         if is_val(a):
